@@ -259,7 +259,8 @@ class ReplaceRefMixin(object):
         if hasattr(self, "_ref_attrs"):
             for attr in self._ref_attrs:
                 o = getattr(self, attr)
-                if o is None:
+                if o is None or isinstance(o, str):
+                    # nothing to replace (e.g. a barline location)
                     pass
                 elif isinstance(o, list):
                     o_list_new = []
